@@ -124,3 +124,8 @@ pub open spec fn dedup_seq<T>(s: Seq<T>) -> Seq<T> // keep-vis
 }
 pub assume_specification<T: PartialEq, A: core::alloc::Allocator>[ Vec::<T, A>::dedup ](v: &mut Vec<T, A>)
     ensures final(v)@ == dedup_seq(old(v)@);
+
+// <[IndexBlob]>::first (definition)
+pub fn vfirst_blob(v: &Vec<IndexBlob>) -> (r: Option<&IndexBlob>)
+    ensures v@.len() == 0 ==> r is None, v@.len() > 0 ==> r == Some(&v@[0]),
+{ if v.len() == 0 { None } else { Some(&v[0]) } }
